@@ -250,3 +250,54 @@ package fontscan
 //@   ensures [invalidates] implies(result == nil, !fm.built)
 //@   ensures [cache-cleared] implies(result == nil, len(fm.lru.m) == 0)
 //@   modifies unspecified
+//
+// Resolution priority. loadFont's outcome is abstract: faceOf(fm, i) identifies the face loading database[i] yields,
+// loadFails(fm, i) says loading fails (both determined by the database entry; assumption A-C14-load).
+//@ opaque faceOf(fm *FontMap, loc Location) region
+//@ opaque loadFails(fm *FontMap, loc Location) bool
+//@ trusted FontMap.loadFont
+//@   ensures [outcome] (result1 == nil) == !loadFails(fm, fp.Location)
+//@   ensures [face] implies(result1 == nil, result0 != nil && rid(result0) == faceOf(fm, fp.Location) && off(result0) == 0)
+//@   modifies nothing
+//@ trusted Logger.Printf
+//@   params recv, format, args
+//@   modifies nothing
+//
+// resolveForRune: "the first, in the documented order, whose coverage contains the rune" - within one candidate list.
+//@ spec covers(fm *FontMap, cands []int, k int, r rune) bool = inSet(fm.database[cands[k]].Runes, r)
+//@ func FontMap.resolveForRune C14
+//@   mode bv
+//@   requires forall(k, 0, len(candidates), 0 <= candidates[k] && candidates[k] < len(fm.database))
+//@   requires forall(k, 0, len(fm.database), pagesSorted(fm.database[k].Runes))
+//@   requires 0 <= r && r <= 0x10FFFF
+//@   ensures [first-match] implies(result != nil, exists(k, 0, len(candidates), covers(fm, candidates, k, r) && !loadFails(fm, fm.database[candidates[k]].Location) &&
+//@     | rid(result) == faceOf(fm, fm.database[candidates[k]].Location) &&
+//@     | forall(j, 0, k, !covers(fm, candidates, j, r) || loadFails(fm, fm.database[candidates[j]].Location))))
+//@   ensures [nil-iff-none] implies(result == nil, forall(k, 0, len(candidates), !covers(fm, candidates, k, r) || loadFails(fm, fm.database[candidates[k]].Location)))
+//@   modifies nothing
+//@   loop 1 invariant [none-so-far] forall(j, 0, rangeindex+1, !covers(fm, candidates, j, r) || loadFails(fm, fm.database[candidates[j]].Location))
+//
+// ResolveFace: the documented four-step order. The rune cache and the candidate builder are trusted frames here
+// (assumption A-C14-frames); what is proved is the order: the script-coverage step is reached only when no loadable
+// candidate of the exact, fallback and manual lists covers the rune, and the arbitrary face only when, in addition,
+// no font of the current script does.
+//@ trusted runeLRU.KeyFor
+//@   modifies l.m; l.seed; l.head; l.tail; all(runeLRUEntry)
+//@ trusted runeLRU.Get
+//@   modifies all(runeLRUEntry)
+//@ trusted runeLRU.Put
+//@   modifies l.m; l.seed; l.head; l.tail; all(runeLRUEntry)
+//@ spec validCands(fm *FontMap, c []int) bool = forall(k, 0, len(c), 0 <= c[k] && c[k] < len(fm.database))
+//@ trusted FontMap.buildCandidates
+//@   ensures [built] fm.built
+//@   ensures [valid] validCands(fm, fm.candidates.withoutFallback) && validCands(fm, fm.candidates.withFallback) && validCands(fm, fm.candidates.manual)
+//@   modifies fm.built; fm.candidates; fm.footprintsBuffer; all(int); all(scoreStrong)
+//@ spec noneCovers(fm *FontMap, c []int, r rune) bool = forall(k, 0, len(c), !covers(fm, c, k, r) || loadFails(fm, fm.database[c[k]].Location))
+//@ func FontMap.ResolveFace C14
+//@   mode bv
+//@   requires forall(k, 0, len(fm.database), pagesSorted(fm.database[k].Runes))
+//@   requires 0 <= r && r <= 0x10FFFF
+//@   requires [script-map-valid] validCands(fm, fm.scriptMap[fm.script])
+//@   assert_at call Printf#1 : [steps-1-3-failed] noneCovers(fm, fm.candidates.withoutFallback, r) && noneCovers(fm, fm.candidates.withFallback, r) && noneCovers(fm, fm.candidates.manual, r)
+//@   assert_at call Printf#2 : [steps-1-4-failed] noneCovers(fm, fm.candidates.withoutFallback, r) && noneCovers(fm, fm.candidates.withFallback, r) && noneCovers(fm, fm.candidates.manual, r) && noneCovers(fm, scriptCandidates, r)
+//@   modifies unspecified
